@@ -42,7 +42,9 @@ def make_inputs(d, R, long_at=0, bgzf_aligned=False, poison_at=0):
     from readers import write_text
 
     gtxt = (f"S\ts1\t{NODE1}\tLN:i:{len(NODE1)}\tSN:Z:chr1\tSO:i:0\tSR:i:0\n"
-            f"S\ts2\t{NODE2}\tLN:i:{len(NODE2)}\tSN:Z:chr1\tSO:i:{len(NODE1)}\tSR:i:0\n" + "L\ts1\t+\ts2\t+\t0M\n")
+            f"S\ts2\t{NODE2}\tLN:i:{len(NODE2)}\tSN:Z:chr1\tSO:i:{len(NODE1)}\tSR:i:0\n" + "L\ts1\t+\ts2\t+\t0M\n"
+            # (s2 can also be entered inverted, as after an inversion call: two links between the same two segments)
+            + "L\ts1\t+\ts2\t-\t0M\n")
     if long_at:
         gtxt += f"S\ts3\t{big}\tLN:i:{len(big)}\tSN:Z:chr1\tSO:i:{len(NODE1) + len(NODE2)}\tSR:i:0\n" + "L\ts2\t+\ts3\t+\t0M\n"
     write_text(gfa, gtxt)
@@ -140,6 +142,13 @@ def _outcome_case(cid, k, res, ref):
             "lines": lines, "ref": ref, "diverged": res["diverged"]}
 
 
+def _dbg(key):
+    """one run in four is made as `gaftools --debug realign ...` (the global option must not change what happens)"""
+    import zlib
+
+    return ["--debug"] if zlib.crc32(("dbg" + key).encode()) % 4 == 1 else []
+
+
 def replay_job(job):
     """lock-step replay of one behaviour (runs in a pool worker); if the implementation does not follow the
     model step for step, the behaviour is replayed again as a mere schedule and judged on its outcome"""
@@ -149,7 +158,7 @@ def replay_job(job):
     os.environ["GAFTOOLS_VERIF"] = "1"
     os.environ["GAFTOOLS_VERIF_BATCH_SIZE"] = str(k["B"])
     gaf, gfa, fa = inputs
-    argv = ["realign", gaf, gfa, fa, "-c", str(k["C"])]
+    argv = _dbg(str(bid)) + ["realign", gaf, gfa, fa, "-c", str(k["C"])]
     clause, detail = run_script(argv, k["Cap"], k["C"], labels, _names)
     outcome = None
     if clause != "ok":
@@ -165,7 +174,7 @@ def random_job(job):
     os.environ["GAFTOOLS_VERIF"] = "1"
     os.environ["GAFTOOLS_VERIF_BATCH_SIZE"] = str(k["B"])
     gaf, gfa, fa = inputs
-    argv = ["realign", gaf, gfa, fa, "-c", str(k["C"])]
+    argv = _dbg(str(cid)) + ["realign", gaf, gfa, fa, "-c", str(k["C"])]
     trace, end, written = run_random(argv, k["Cap"], k["C"], seed, max_faults=k["F"], fault_kinds=k["kinds"])
     for e in trace:
         if e["t"] == "PDrain":
@@ -190,7 +199,7 @@ def reschedule_job(job):
     os.environ["GAFTOOLS_VERIF"] = "1"
     os.environ["GAFTOOLS_VERIF_BATCH_SIZE"] = str(k["B"])
     gaf, gfa, fa = inputs
-    argv = ["realign", gaf, gfa, fa, "-c", str(k["C"])]
+    argv = _dbg(str(cid)) + ["realign", gaf, gfa, fa, "-c", str(k["C"])]
     labels = [(e["t"], e.get("w"), None) for e in trace if e["t"][0] in "WP" and e["t"] not in ("HANG", "LIVELOCK", "STUCK")]
     return _outcome_case(cid, k, run_schedule(argv, k["Cap"], k["C"], labels), ref)
 
